@@ -8,7 +8,7 @@ enumx: explicit-state BFS over *programs* against the real frappy class / module
        HasAccessibles.__init_subclass__ / HasProperties.__init_subclass__), allowed once its menu bases exist
   new  instantiates class `cid` with configuration `cfgid` of the family in the program's node (a real SecNode /
        Dispatcher; the module is created by SecNode.get_module, the lazy path also used for attached modules)
-  mut  changes instance k at run time (setProperty on a datatype / member datatype / command argument, unit change,
+  mut  changes instance k at run time (setProperty on a datatype / member datatype / command argument / result, unit change,
        applyMainUnit, enum growth exactly as HasControlledBy.register_input does it, register_input itself,
        attribute assignment)
 
@@ -55,6 +55,7 @@ Oracle calibration
 """
 import copy
 import json
+import logging
 import os
 import re
 import sys
@@ -80,7 +81,7 @@ FAMILIES = {
                 'e': ['P', {'description': 'e', 'datatype': ['enum', {'a': 1, 'b': 2}], 'readonly': False, 'default': 1}],
                 's': ['P', {'description': 's', 'datatype': ['struct', {'x': ['double', {'min': 0, 'max': 5}],
                                                                       'y': ['string', {'maxchars': 4}]}, ['y']],
-                            'readonly': False, 'default': {'x': 1}}],
+                            'readonly': False, 'default': {'x': 1, 'y': ''}}],
                 'arr': ['P', {'description': 'arr', 'datatype': ['array', ['string', {'maxchars': 6}], 0, 3],
                               'readonly': False, 'default': []}],
                 't': ['P', {'description': 't', 'datatype': ['tuple', [['int', 0, 3], ['bool']]], 'readonly': False,
@@ -129,8 +130,9 @@ FAMILIES = {
             'assign': {'needs': ['f'], 'op': ['assign', 'f', 0.5]},
             'cmdarg': {'needs': ['cmd'], 'op': ['cmdarg', 'cmd', [], 'max', 3]},
             'csarg': {'needs': ['cs'], 'op': ['cmdarg', 'cs', ['a'], 'max', 2]},
+            'cmdres': {'needs': ['cmd'], 'op': ['cmdres', 'cmd', [], 'max', 3]},
         },
-        'quick_mutations': ['fmax', 'arrchars', 'sx', 'egrow', 'assign', 'cmdarg', 'csarg'],
+        'quick_mutations': ['fmax', 'arrchars', 'sx', 't0', 'egrow', 'assign', 'cmdarg', 'csarg', 'cmdres'],
     },
     # plain mixins (not derived from HasAccessibles), Feature mixins, diamond
     'mixin': {
@@ -162,10 +164,11 @@ FAMILIES = {
             'D': {'bases': ['L', 'R'], 'body': {}},
         },
         'instantiable': ['B1', 'B2', 'X1', 'X2', 'Y1', 'Y2', 'L', 'R', 'D'],
+        'quick_instantiable': ['B1', 'X1', 'X2', 'Y1', 'L', 'D'],
         'configs': [
             {},
             {'f': {'max': 6, 'value': 2}},
-            {'g': {'value': 4}, 'h': {'max': 0.5}},
+            {'g': {'value': 4, 'max': 8}, 'visibility': 'advanced'},
         ],
         'quick_configs': [0, 1],
         'mutations': {
@@ -258,15 +261,31 @@ PROBES = [None, True, 0, 1, 2, 3, 4, 5, 7, 9, 10, 11, 20, 21, 45, 100, 350, -1, 
 CHANGE_PROBES = [0, 1, 3, 4.5, 8.5, 11, 35, 'b', 'z', 'ctl', ['abc'], ['a', 'b', 'c'], {'x': 1}, {'x': 2.5, 'y': 'ab'}, [1, True]]
 
 
-def bounds(tier):
-    return dict(depth=4 if tier == 'quick' else 5, max_instances=3)
+MAX_INSTANCES = 3
 
 
-def fam_view(family, tier):
-    fam = FAMILIES[family]
+def plans(tier):
+    """family -> list of (view, depth, min_len): explore all programs of the view ('quick' = the reduced menus, 'full' = all
+    configurations / mutations / instantiable classes) up to `depth` steps and judge those with >= min_len steps"""
     if tier == 'quick':
+        return {f: [('quick', 4, 0)] for f in FAMILIES}
+    res = {f: [('full', 5, 0)] for f in FAMILIES}
+    # the mixin family is the widest one: the full menus to 4 steps, then the reduced menus one step deeper (the programs
+    # of <= 4 steps of the reduced menus are among those of the full menus and are not judged twice)
+    res['mixin'] = [('full', 4, 0), ('quick', 5, 5)]
+    return res
+
+
+def fam_view(family, view):
+    fam = FAMILIES[family]
+    if view == 'quick':
         return fam['quick_configs'], fam['quick_mutations']
     return list(range(len(fam['configs']))), list(fam['mutations'])
+
+
+def instantiable(family, view):
+    fam = FAMILIES[family]
+    return fam.get('quick_instantiable', fam['instantiable']) if view == 'quick' else fam['instantiable']
 
 
 def chain(fam, cid):
@@ -316,6 +335,7 @@ class World:
         self.env = {}
         self.deferr = {}
         self.node = nodes.Node({}, start=False, name='c09node')
+        self.quiet()
         self.conn = self.node.connect()
         self.insts = []
         self.transitions = 0
@@ -324,6 +344,13 @@ class World:
 
     def close(self):
         self.node.close()
+
+    def quiet(self):
+        """debug records of every request are not needed here (mlzlog children get their own level)"""
+        prefix = self.node.log.name
+        for name, lg in list(logging.Logger.manager.loggerDict.items()):
+            if name.startswith(prefix) and isinstance(lg, logging.Logger):
+                lg.setLevel(logging.WARNING)
 
     # --- steps
     def define(self, cid):
@@ -355,6 +382,7 @@ class World:
         except Exception as e:
             obj = None
             sec.errors.append(f'raised {exc_name(e)}')
+        self.quiet()
         if obj is None or len(sec.errors) > nerr:
             inst['refused'] = [re.sub(r'\s+', ' ', t.strip())[:200] for t in sec.errors[nerr:]] or ['no module']
             if obj is not None:     # registered although errors were collected: keep it observable
@@ -391,6 +419,8 @@ class World:
             self._descend(obj.parameters[op[1]].datatype, op[2]).setProperty(op[3], op[4])
         elif kind == 'cmdarg':
             self._descend(obj.commands[op[1]].argument, op[2]).setProperty(op[3], op[4])
+        elif kind == 'cmdres':
+            self._descend(obj.commands[op[1]].result, op[2]).setProperty(op[3], op[4])
         elif kind == 'enumgrow':    # literally what HasControlledBy.register_input does
             prev_enum = obj.parameters[op[1]].datatype.export_datatype()['members']
             obj.parameters[op[1]].datatype = EnumType(Enum(prev_enum, **{op[2]: None}))
@@ -520,7 +550,8 @@ class World:
         return res
 
     def alias_findings(self):
-        """-> list of (kindA, kindB, typename, pathA, pathB, ownerA, ownerB)"""
+        """-> list of (kindA, kindB, typename, pathA, pathB, ownerA, ownerB); only the topmost shared object of a shared
+        sub-graph is listed (everything below a shared object is shared as well)"""
         seen = {}     # id(obj) -> (owner label, owner kind, path, via id, obj)
         found = []
         reported = set()
@@ -530,7 +561,8 @@ class World:
                 walk(aobj, type(aobj).__name__, id(aobj), mine)
             if propvals is not None:
                 walk(propvals, 'module.propertyValues', 0, mine)
-            for oid, (path, via, obj) in mine.items():
+            shared = {}
+            for oid, (path, via, obj, parent) in mine.items():
                 other = seen.get(oid)
                 if other is None:
                     seen[oid] = (label, okind, path, via, obj)
@@ -538,6 +570,10 @@ class World:
                 olabel, ookind, opath, ovia, _ = other
                 if okind == 'class' and ookind == 'class' and via == ovia and via:
                     continue      # the same inherited Accessible object (by design)
+                shared[oid] = (olabel, ookind, opath, path, obj, parent)
+            for oid, (olabel, ookind, opath, path, obj, parent) in shared.items():
+                if parent in shared and shared[parent][0] == olabel:
+                    continue      # below an object already listed for the same pair of owners
                 key = (ookind, okind, type(obj).__name__, opath, path)
                 if key not in reported:
                     reported.add(key)
@@ -545,46 +581,47 @@ class World:
         return found
 
 
-def walk(obj, path, via, out, depth=0):
-    """collect mutable objects reachable from one Accessible: id -> (path, via, obj)"""
+def walk(obj, path, via, out, depth=0, parent=0):
+    """collect mutable objects reachable from one Accessible: id -> (path, via, obj, id of the object it was reached from)"""
     from frappy.datatypes import DataType
     from frappy.lib.enum import Enum, EnumMember
     from frappy.params import Accessible
     if depth > 12:
         return
+    oid = id(obj)
     if isinstance(obj, Accessible):
-        if id(obj) in out:
+        if oid in out:
             return
-        out[id(obj)] = (path, via, obj)
-        walk(obj.propertyValues, path + '.propertyValues', via, out, depth + 1)
+        out[oid] = (path, via, obj, parent)
+        walk(obj.propertyValues, path + '.propertyValues', via, out, depth + 1, oid)
         if obj.ownProperties is not None:
-            walk(obj.ownProperties, path + '.ownProperties', via, out, depth + 1)
+            walk(obj.ownProperties, path + '.ownProperties', via, out, depth + 1, oid)
     elif isinstance(obj, Enum):
-        if id(obj) not in out:
-            out[id(obj)] = (path, via, obj)
+        if oid not in out:
+            out[oid] = (path, via, obj, parent)
     elif isinstance(obj, EnumMember):
         return      # an immutable value; that it knows the Enum it was taken from is no aliasing of mutable state
     elif isinstance(obj, DataType):
-        if id(obj) in out:
+        if oid in out:
             return
-        out[id(obj)] = (path, via, obj)
+        out[oid] = (path, via, obj, parent)
         for k, v in vars(obj).items():
-            walk(v, f'{path}<{type(obj).__name__}>.{k}', via, out, depth + 1)
+            walk(v, f'{path}<{type(obj).__name__}>.{k}', via, out, depth + 1, oid)
     elif isinstance(obj, dict):
-        if id(obj) in out:
+        if oid in out:
             return
-        out[id(obj)] = (path, via, obj)
+        out[oid] = (path, via, obj, parent)
         for k, v in obj.items():
-            walk(v, f'{path}[{k}]' if path.endswith(('propertyValues', 'ownProperties')) else path + '[]', via, out, depth + 1)
+            walk(v, f'{path}[{k}]' if path.endswith(('propertyValues', 'ownProperties')) else path + '[]', via, out, depth + 1, oid)
     elif isinstance(obj, list):
-        if id(obj) in out:
+        if oid in out:
             return
-        out[id(obj)] = (path, via, obj)
+        out[oid] = (path, via, obj, parent)
         for v in obj:
-            walk(v, path + '[]', via, out, depth + 1)
+            walk(v, path + '[]', via, out, depth + 1, oid)
     elif isinstance(obj, tuple):
         for v in obj:
-            walk(v, path + '()', via, out, depth + 1)
+            walk(v, path + '()', via, out, depth + 1, parent)
 
 
 def classify_error(text):
@@ -617,10 +654,14 @@ def alone_observe(family, ent):
     try:
         w = World(family)
         w.run(alone_steps(family, ent))
+        if w.deferr:
+            raise RuntimeError(f'menu error: class chain of {ent!r} can not be defined alone: {w.deferr}')
         if ent[0] == 'class':
             obs = w.observe_class(ent[1])
         else:
             obs = w.observe_inst(0)
+            if ent[2] == 0 and obs['pure']['refused']:
+                raise RuntimeError(f'menu error: {ent!r} with the empty configuration is refused alone: {obs["pure"]["refused"]}')
         w.close()
         return canon(obs)
     finally:
@@ -898,17 +939,16 @@ def pick(obj, path):
 # ---------------------------------------------------------------------------------------------------------------
 # enumeration
 
-def successors(family, tier, steps, state, ref):
+def successors(family, view, steps, state, ref):
     """all steps that may follow; state = (defined list, instances [(cid, cfgid, names|None)])"""
     fam = FAMILIES[family]
-    cfgids, mids = fam_view(family, tier)
+    cfgids, mids = fam_view(family, view)
     defined, insts = state
-    b = bounds(tier)
     for cid, rec in fam['classes'].items():
         if cid not in defined and all(bb in defined or bb not in fam['classes'] for bb in rec['bases']):
             yield ['def', cid]
-    if len(insts) < b['max_instances']:
-        for cid in fam['instantiable']:
+    if len(insts) < MAX_INSTANCES:
+        for cid in instantiable(family, view):
             if cid in defined:
                 for cfgid in cfgids:
                     yield ['new', cid, cfgid]
@@ -939,13 +979,13 @@ def initial_state(family):
     return (list(FAMILIES[family]['prelude']), [])
 
 
-def explore(family, tier, steps, state, depth, part, ref, parent):
+def explore(family, view, steps, state, depth, min_len, part, ref, parent):
     """evaluate the program `steps` and all its extensions up to `depth`"""
-    summary = run_program(family, steps, part, ref, parent)
+    summary = run_program(family, steps, part, ref, parent, count=len(steps) >= min_len)
     if len(steps) >= depth:
         return
-    for st in successors(family, tier, steps, state, ref):
-        explore(family, tier, steps + [st], apply_state(family, state, st, ref), depth, part, ref, summary)
+    for st in successors(family, view, steps, state, ref):
+        explore(family, view, steps + [st], apply_state(family, state, st, ref), depth, min_len, part, ref, summary)
 
 
 def run_program(family, steps, part, ref, parent, count=True):
@@ -955,6 +995,7 @@ def run_program(family, steps, part, ref, parent, count=True):
     if count:
         part.evaluations += 1
         part.states += 1
+        part.extra[f'programs_{family}'] += 1
         if summary['nclasses'] + summary['ninsts'] >= 2 and steps:
             part.nontrivial += 1
         if part.evaluations % 997 == 1:
@@ -964,12 +1005,13 @@ def run_program(family, steps, part, ref, parent, count=True):
     return summary
 
 
+SPLIT = 3      # programs shorter than this are shards of their own, programs of this length are roots of sub-tree shards
+
+
 def shard_fn(shard):
-    family, prefix = shard
-    tier = core.TIER
+    family, prefix, mode, (view, depth, min_len) = shard
     part = core.Part()
     ref = ref_client()
-    depth = bounds(tier)['depth']
     state = initial_state(family)
     for st in prefix:
         state = apply_state(family, state, st, ref)
@@ -977,61 +1019,53 @@ def shard_fn(shard):
     parent = None
     for n in range(len(prefix)):
         parent = run_program(family, list(prefix[:n]), part, ref, parent, count=False)
-    if len(prefix) < 2:
-        summary = run_program(family, list(prefix), part, ref, parent)     # the short programs themselves
-        # a mutation as second step (after a `new` on a prelude class) is not among the static 2-step prefixes
-        for st in successors(family, tier, prefix, state, ref):
-            if st[0] == 'mut':
-                explore(family, tier, list(prefix) + [st], apply_state(family, state, st, ref), depth, part, ref, summary)
+    if mode == 'single':
+        run_program(family, list(prefix), part, ref, parent)
     else:
-        explore(family, tier, list(prefix), state, depth, part, ref, parent)
+        explore(family, view, list(prefix), state, depth, min_len, part, ref, parent)
     part.extra['reference_builds'] = ref.forks - getattr(ref, 'reported', 0)
     ref.reported = ref.forks
     return part
 
 
-def prefixes(family, tier):
-    """all programs of length 0, 1 and 2 (applicability of mutations needs no reference up to here)"""
-    res = [[]]
-    state0 = initial_state(family)
-    fam = FAMILIES[family]
-    cfgids, _ = fam_view(family, tier)
+def make_shards(tier):
+    """every program shorter than SPLIT steps is a shard of its own; every program of SPLIT steps is the root of a sub-tree
+    shard.  Needs the reference (which mutations apply to which instance), computed by a helper of this (clean) process"""
+    ref = ref_client()
+    shards = []
 
-    def succ_static(state):
-        defined, insts = state
-        for cid, rec in fam['classes'].items():
-            if cid not in defined and all(bb in defined or bb not in fam['classes'] for bb in rec['bases']):
-                yield ['def', cid]
-        for cid in fam['instantiable']:
-            if cid in defined:
-                for cfgid in cfgids:
-                    yield ['new', cid, cfgid]
-    for s1 in succ_static(state0):
-        res.append([s1])
-        st1 = (state0[0] + [s1[1]], state0[1]) if s1[0] == 'def' else (state0[0], state0[1] + [(s1[1], s1[2], None)])
-        for s2 in succ_static(st1):
-            res.append([s1, s2])
-    return res
+    def gen(family, plan, steps, state):
+        view, depth, min_len = plan
+        if len(steps) >= min(SPLIT, depth):
+            shards.append((family, steps, 'subtree', plan))
+            return
+        if len(steps) >= min_len:
+            shards.append((family, steps, 'single', plan))
+        for st in successors(family, view, steps, state, ref):
+            gen(family, plan, steps + [st], apply_state(family, state, st, ref))
+    for family, plist in plans(tier).items():
+        for plan in plist:
+            gen(family, plan, [], initial_state(family))
+    ref.close()
+    _REF[0] = None
+    return shards
 
 
 def run(ctx):
-    b = bounds(ctx.tier)
-    shards = []
-    for family in FAMILIES:
-        for p in prefixes(family, ctx.tier):
-            shards.append((family, p))
-    # a mutation directly after a `new` in a 2-step prefix can not occur (the first step is never a mutation), so the
-    # prefixes above cover every program; programs of length >= 2 are explored below their 2-step prefix
+    shards = make_shards(ctx.tier)
     ctx.pmap(shard_fn, shards, name='programs')
-    nfam = {f: (len(FAMILIES[f]['classes']), len(fam_view(f, ctx.tier)[0]), len(fam_view(f, ctx.tier)[1])) for f in FAMILIES}
-    ctx.rule = ('explicit-state BFS over programs: every sequence of <= %d steps {define menu class (bases first), instantiate a '
-                'defined class with one of the family\'s configurations (<= %d instances), mutate an instance (only mutations whose '
-                'parameters exist)} per family %s (classes, configs, mutations), on top of the family prelude; each program is '
-                'executed from scratch on the real code and every class and instance alive after the last step is compared with its '
-                'alone build (fresh process) + object-identity walk. states = evaluations = programs; distinct_nontrivial = programs '
-                'with >= 2 entities alive; transitions = steps + validate probes + dispatcher requests executed; traces = entity '
-                'observations compared with the reference' % (b['depth'], b['max_instances'], json.dumps(nfam)))
-    ctx.coverage.update(bound_completed=f'program length <= {b["depth"]}, <= {b["max_instances"]} instances',
+    pl = plans(ctx.tier)
+    menus = {f: {'classes': len(FAMILIES[f]['classes']),
+                 'plans': [{'view': v, 'depth': d, 'configs': len(fam_view(f, v)[0]), 'mutations': len(fam_view(f, v)[1]),
+                            'instantiable': len(instantiable(f, v))} for v, d, _m in pl[f]]} for f in FAMILIES}
+    ctx.rule = ('explicit-state BFS over programs: every sequence of steps {define a menu class (bases first), instantiate a defined '
+                'class with one of the family\'s configurations (<= %d instances), mutate an instance (only mutations whose '
+                'parameters exist)} up to the depth of the plan, per family, on top of the family prelude: %s. Each program is '
+                'executed from scratch on the real code; every class and instance alive after the last step is compared with its '
+                'alone build (fresh process) and the object-identity walk is run. states = evaluations = programs; '
+                'distinct_nontrivial = programs with >= 2 entities alive; transitions = steps + validate probes + dispatcher '
+                'requests executed; traces = entity observations compared with the reference' % (MAX_INSTANCES, json.dumps(menus)))
+    ctx.coverage.update(bound_completed='; '.join(f'{f}: ' + ', '.join(f'{v} menus to {d} steps' for v, d, _m in pl[f]) for f in FAMILIES),
                         families={f: {'classes': list(FAMILIES[f]['classes']), 'prelude': FAMILIES[f]['prelude']} for f in FAMILIES})
     ctx.assume('class menus, configurations and mutations outside the four families are not covered; classes of different families '
                'are never combined in one program',
